@@ -31,7 +31,7 @@ NFILTERS = 2
 
 class FindCheckCache(Contract):
     target = 'bfg9000/builtins/find.py::find_check_cache'
-    properties = ('C08', 'C10')
+    properties = ('C08', 'C10', 'C11', 'C18')
     ghost_indices = [K_IN, K_OUT]
     raises_exact = False
 
